@@ -142,8 +142,8 @@ def check_ctor_error_exits_clean(ctx, F, guard_adt, new, coder_root=(1, 'deref')
     for r in paths or []:
         if r.end != 'return' or r.ret is None or rules.ret_shape(r.ret)[0] != 'Err':
             continue
-        if r.ret[0] == 'err_of':
-            continue          # a backend write error is propagated: outside the quantifier (see assumptions)
+        if r.ret[0] == 'err_of' or sym.contains(r.ret, lambda x: isinstance(x, tuple) and x and x[0] == 'payload' and x[2] == 'Err' and sym.contains(x[1], lambda y: isinstance(y, tuple) and y and y[0] == 'call' and str(y[1]).endswith('WriteWords::write'))):
+            continue          # a backend write error is passed on (by `?` or by hand): decided by the compensation rule for the ANS guard, outside the quantifier for the others
         n += 1
         dirty = [e for e in r.events if (e['kind'] == 'write' and e['path'][:len(coder_root)] == coder_root)
                  or (e['kind'] == 'call' and e.get('uid') is not None and any(p[:len(coder_root)] == coder_root for p in e['mut_paths']))]
@@ -163,10 +163,105 @@ def _what(e):
     return ('write to ' + sym.path_str(e['path'])) if e['kind'] == 'write' else ('call ' + e['callee'].rsplit('::', 1)[-1])
 
 
+def check_failed_write_compensated(ctx, F, guard_adt, new):
+    """The ANS guard appends the words of the state one by one.  When one of those writes is refused (bounded or failing
+    backend) no guard exists yet, so nothing would undo the words that did get through: the constructor itself has to take
+    them back, or a failed inspection leaves the coder longer than it was and everything encoded so far decodes to garbage.
+    Template decided here: a counter starts at 0 and is incremented once per successful write; on the exit taken by a refused
+    write a loop over `0..counter` pops one word per iteration and nothing else touches the coder."""
+    if not guard_adt or new is None:
+        return
+    key = 'R5/failed-write-compensated/' + guard_adt
+    role = 'a refused write in the guard constructor takes back the words already appended'
+    ev, paths = rules.evaluate(new)
+    if paths is None:
+        return ctx.unresolved('R5', role, new.defpath, 'too many paths', key=key)
+    BULK = (1, 'deref', ('f', 'bulk'))
+    is_write = lambda e: is_call_on(e, 'WriteWords::write', BULK)
+    is_read = lambda e: e['kind'] == 'call' and e['callee'].endswith('ReadWords::read') and any(p[:len(BULK)] == BULK for p in e['mut_paths'])
+    # does a write happen inside a loop at all?  (otherwise at most one word is appended and nothing can be left behind... unless several straight-line writes)
+    write_heads = set()
+    for r in paths:
+        if r.end == 'backedge':
+            les = [(i, e) for i, e in enumerate(r.events) if e['kind'] == 'loop_enter']
+            if les and any(is_write(e) for e in r.events[les[-1][0]:]):
+                write_heads.add(les[-1][1]['head'])
+    if not write_heads:
+        return ctx.unresolved('R5', role, new.defpath, 'the constructor does not append words in a loop', key=key)
+    verdict = None
+    n_exits = 0
+    for r in paths:
+        if r.end != 'return' or r.ret is None or rules.ret_shape(r.ret)[0] != 'Err':
+            continue
+        failed = [i for i, e in enumerate(r.events) if e['kind'] == 'branch' and e['term'][0] == 'discr' and sym.contains(e['term'], lambda y: isinstance(y, tuple) and y and y[0] == 'call' and str(y[1]).endswith('WriteWords::write'))
+                  and sym.discr_variant(e['term'], e['value']) in ('Err', 'Break')]
+        if not failed:
+            continue
+        n_exits += 1
+        after = r.events[failed[-1] + 1:]
+        pop_loops = [e for e in after if e['kind'] == 'loop_enter']
+        if not pop_loops and not any(is_read(e) for e in after):
+            verdict = ('bad', 'when a write is refused the constructor returns at once: the words appended by the earlier iterations stay in the buffer (no guard exists on this exit), so a failed get_compressed()/get_binary() on a bounded backend leaves the coder longer than it was and corrupts what was encoded')
+            continue
+        if len(pop_loops) != 1:
+            verdict = verdict or ('unresolved', 'the exit after a refused write has %d loops' % len(pop_loops))
+            continue
+        le = pop_loops[0]
+        trip = None
+        for pth, v in le['pre'].items():
+            if v[0] == 'call' and 'into_iter' in v[1]:
+                try:
+                    trip = effects.IterModel(r).length(v)
+                except Exception:
+                    trip = None
+        # the trip count must be a counter of the write loop: pre-loop 0, +1 on every iteration that wrote successfully
+        if trip is not None:
+            a = sym.affine(trip)
+            if a is not None and a[1] == 0 and len(a[0]) == 1 and list(a[0].values())[0][0] == 1:
+                trip = list(a[0].values())[0][1]          # `n - 0` is n
+        ctr = trip if (isinstance(trip, tuple) and trip and trip[0] == 'loop' and trip[1] in write_heads) else None
+        if ctr is None:
+            verdict = verdict or ('unresolved', 'the number of words taken back (%s) is not a counter of the writing loop' % (sym.show(trip)[:60] if trip is not None else '?'))
+            continue
+        ok_ctr = True
+        for q in paths:
+            for e in q.events:
+                if e['kind'] == 'loop_enter' and e['head'] == ctr[1] and e['pre'].get(ctr[2]) not in (sym.mk_int(0), None) :
+                    ok_ctr = False
+                if e['kind'] == 'loop_enter' and e['head'] == ctr[1] and e['pre'].get(ctr[2]) is None:
+                    ok_ctr = False
+            if q.end == 'backedge':
+                les = [(i, e) for i, e in enumerate(q.events) if e['kind'] == 'loop_enter']
+                if les and les[-1][1]['head'] == ctr[1]:
+                    ws = [e for e in q.events[les[-1][0]:] if is_write(e)]
+                    fin = ev.final_read(q, ctr[2])
+                    if len(ws) != 1 or not effects.affine_eq(sym.affine(fin), sym.affine(sym.mk_bin('Add', ctr, sym.mk_int(1)))):
+                        ok_ctr = False
+        per_iter = []
+        for q in paths:
+            if q.end == 'backedge':
+                les = [(i, e) for i, e in enumerate(q.events) if e['kind'] == 'loop_enter']
+                if les and les[-1][1]['head'] == le['head']:
+                    body = q.events[les[-1][0]:]
+                    per_iter.append((sum(1 for e in body if is_read(e)), sum(1 for e in body if is_write(e))))
+        if not ok_ctr:
+            verdict = verdict or ('unresolved', 'the counter of successful writes is not `0, then +1 per written word`')
+        elif not per_iter or any(x != (1, 0) for x in per_iter):
+            verdict = ('bad', 'the loop that should take the appended words back does not pop exactly one word per iteration (%s reads/writes per iteration)' % per_iter)
+    if n_exits == 0:
+        return ctx.unresolved('R5', role, new.defpath, 'no exit for a refused write found', key=key)
+    if verdict and verdict[0] == 'bad':
+        return ctx.bad('R5', role, new.defpath, verdict[1], key=key, loc=rules.loc(new))
+    if verdict:
+        return ctx.unresolved('R5', role, new.defpath, verdict[1], key=key)
+    ctx.ok('R5', role, new.defpath, '%d exit(s) after a refused write: each pops `counter` words, counter = number of successful writes' % n_exits, key=key)
+
+
 def check_coder_guard(ctx, F):
     g, new, drop = anchors.guard_of(F, ANS, 'get_compressed')
     check_no_guard_dropped_in_ctor(ctx, F, g, new)
     check_ctor_error_exits_clean(ctx, F, g, new)
+    check_failed_write_compensated(ctx, F, g, new)
     key = 'R5/guard-pairing/stream::stack::CoderGuard'
     role = 'guard pops exactly the words it appended'
     if not new or not drop:
